@@ -106,10 +106,12 @@ type Specs struct {
 	StrConsts map[string]string // literal text -> SMT constant name usable in theories
 	StrOrder  []string
 	Macros    map[string]*LetDef // global contract-language macros (`define`)
+	OnBox     map[string][]*Clause // facts assumed when a value of this struct type is converted to an interface
+	OnBoxUses map[string][]string
 }
 
 func newSpecs() *Specs {
-	return &Specs{Contracts: map[string]*Contract{}, Theories: map[string]*Theory{}, Lemmas: map[string]*Lemma{}, Records: map[string]*RecType{}, SortAlias: map[string]string{}, Fns: map[string]*SpecFn{}, StrConsts: map[string]string{}, Macros: map[string]*LetDef{}}
+	return &Specs{Contracts: map[string]*Contract{}, Theories: map[string]*Theory{}, Lemmas: map[string]*Lemma{}, Records: map[string]*RecType{}, SortAlias: map[string]string{}, Fns: map[string]*SpecFn{}, StrConsts: map[string]string{}, Macros: map[string]*LetDef{}, OnBox: map[string][]*Clause{}, OnBoxUses: map[string][]string{}}
 }
 
 func (sp *Specs) loadSpecDir(dir string) error {
@@ -272,6 +274,27 @@ func (sp *Specs) parseText(file string, lines []string, nums []int) error {
 			sp.Fns[f[0]] = &SpecFn{Name: f[0], Ret: SStr}
 			cur = nil
 			continue
+		case "onbox":
+			// onbox <pkg.Type> [uses a,b :] <expr over self>
+			f := strings.SplitN(rest, " ", 2)
+			if len(f) != 2 {
+				return fail(fmt.Errorf("onbox needs a type and an expression"))
+			}
+			ex := strings.TrimSpace(f[1])
+			if strings.HasPrefix(ex, "uses ") {
+				j := strings.Index(ex, ":")
+				for _, u := range strings.Split(ex[5:j], ",") {
+					sp.OnBoxUses[f[0]] = append(sp.OnBoxUses[f[0]], strings.TrimSpace(u))
+				}
+				ex = strings.TrimSpace(ex[j+1:])
+			}
+			n, err := parseExpr(ex)
+			if err != nil {
+				return fail(err)
+			}
+			sp.OnBox[f[0]] = append(sp.OnBox[f[0]], &Clause{Expr: n, Src: ex, Where: where})
+			cur = nil
+			continue
 		case "define":
 			j := strings.Index(rest, "=")
 			if j < 0 {
@@ -360,7 +383,7 @@ func (sp *Specs) parseText(file string, lines []string, nums []int) error {
 			}
 			cur.Lets = append(cur.Lets, ld)
 		case "modifies":
-			for _, m := range strings.Split(rest, ",") {
+			for _, m := range splitTop(rest) {
 				m = strings.TrimSpace(m)
 				if m != "" {
 					cur.Modifies = append(cur.Modifies, m)
@@ -656,4 +679,24 @@ func (sp *Specs) theoryTextMode(names []string, replay bool) (string, error) {
 		}
 	}
 	return out.String(), nil
+}
+
+// splitTop splits on commas that are not inside parentheses.
+func splitTop(s string) []string {
+	var out []string
+	depth, start := 0, 0
+	for i, c := range s {
+		switch c {
+		case '(':
+			depth++
+		case ')':
+			depth--
+		case ',':
+			if depth == 0 {
+				out = append(out, s[start:i])
+				start = i + 1
+			}
+		}
+	}
+	return append(out, s[start:])
 }
